@@ -153,6 +153,7 @@ class Run:
         self.nobl = 0
         self.loop_ord = 0
         self.site_ord = {}
+        self.call_log = []          # (callee, static ordinal, line) of every modular call made on this path
         self.draws = []
         self.ghost = {}
         self.solver = z3.Solver()
@@ -790,6 +791,28 @@ class Run:
             self.depth -= 1
             self.cur_env = saved_env
 
+    def static_call_ordinal(self, q, lineno):
+        """ordinal of the call site of `q` at this line among the call sites of `q` in the analysed function, by source
+        order (static: independent of the path taken); falls back to execution order for calls outside the function's AST"""
+        tab = getattr(self, '_call_sites', None)
+        if tab is None:
+            tab = self._call_sites = {}
+            fnode = getattr(self.unit, 'node', None)
+            if fnode is not None:
+                for x in ast.walk(fnode):
+                    if isinstance(x, ast.Call):
+                        nm = ast.unparse(x.func)
+                        tab.setdefault(nm.split('.')[-1], []).append((x.lineno, x.col_offset))
+                for k in tab:
+                    tab[k] = sorted(set(tab[k]))
+        short = q.split('.')[-1]
+        lines = [ln for ln, _ in tab.get(short, [])]
+        if lineno in lines:
+            return lines.index(lineno)
+        k = self.site_ord.get('call:' + q, 0)
+        self.site_ord['call:' + q] = k + 1
+        return len(lines) + k
+
     def call_contract(self, q, args, kw, lineno):
         """modular call: precondition -> obligation, frame havocked, postcondition assumed"""
         c = self.registry.get(q)
@@ -802,8 +825,8 @@ class Run:
                 bound[k] = self.ev(v.node, self.unit.globals_env())
         if c.normalize is not None:
             c.normalize(self, bound)
-        kcall = self.site_ord.get('call:' + q, 0)
-        self.site_ord['call:' + q] = kcall + 1
+        kcall = self.static_call_ordinal(q, lineno)
+        self.call_log.append((q, kcall, lineno))
         hook = self.unit.sites.get(('call:' + q, kcall))
         if hook is not None:
             # delegation site: what the wrapper hands to the callee is itself specified
@@ -1312,6 +1335,7 @@ class Run:
             item = mkitem(i)
             self.assign(n.target, item, env, n.lineno)
             self.loop_stack.append(it)
+            ncalls0 = len(self.call_log)
             try:
                 self.exec_block(n.body, env)
             except ContinueEx:
@@ -1321,6 +1345,10 @@ class Run:
                 self.loop_stack.pop()
                 return
             self.loop_stack.pop()
+            for callee, want in sorted((getattr(spec, 'body_calls', None) or {}).items()):
+                # the body must hand every item to this callee exactly `want` times (on every path through the body)
+                got = sum(1 for c in self.call_log[ncalls0:] if c[0] == callee)
+                self.oblige('site', 'loop%d-body-calls:%s' % (k, callee), n.lineno, BoolVal(got == want))
             it2 = LoopIter(i + 1, seq, entry, outer=outer)
             self.assume_lemmas(spec, env, it2)
             self.oblige('loop-preserve', 'loop%d-preserve' % k, n.lineno, ceval(spec.inv, self.view(env), it2))
